@@ -151,9 +151,11 @@ def setup : Coding → Dec I
   | .identity => .none
 
 /-- `except zlib.error as error: raise ProtocolError(...)`; nothing else is caught. -/
+def excToProtocol (e : PyExc) : PyExc := if e = .ZlibError then .ProtocolError else e
+
 def toProtocol : Except PyExc Bytes → Except PyExc Bytes
-  | .error .ZlibError => .error .ProtocolError
-  | r => r
+  | .error e => .error (excToProtocol e)
+  | .ok b => .ok b
 
 /-- `Stream._decompress_data` -/
 def decompressData (d : Dec I) (data : Bytes) : Dec I × Except PyExc Bytes :=
@@ -232,15 +234,19 @@ def feedAll (s : I.σ) : List Bytes → I.σ × Except PyExc Bytes
       | (s'', .error e) => (s'', .error e)
       | (s'', .ok out') => (s'', .ok (out ++ out'))
 
+/-- Feed all pieces from state `s`, flush, read `eof`. -/
+def runFrom (s : I.σ) (pieces : List Bytes) : Except PyExc (Bytes × Bool) :=
+  match feedAll I s pieces with
+  | (_, .error e) => .error e
+  | (s', .ok out) =>
+    match I.flush s' with
+    | (_, .error e) => .error e
+    | (s'', .ok out') => .ok (out ++ out', I.eof s'')
+
 /-- Feed all pieces to a fresh inflater, flush, read `eof`:
 the complete observable behaviour of one inflater over one input. -/
 def runAll (m : Mode) (pieces : List Bytes) : Except PyExc (Bytes × Bool) :=
-  match feedAll I (I.init m) pieces with
-  | (_, .error e) => .error e
-  | (s, .ok out) =>
-    match I.flush s with
-    | (_, .error e) => .error e
-    | (s', .ok out') => .ok (out ++ out', I.eof s')
+  runFrom I (I.init m) pieces
 
 /-! ### logged oracle: the inflater used by the executable driver
 
